@@ -2,6 +2,9 @@ module osmverif/harness
 
 go 1.16
 
-require github.com/paulmach/osm v0.0.0
+require (
+	github.com/paulmach/orb v0.1.3
+	github.com/paulmach/osm v0.0.0
+)
 
 replace github.com/paulmach/osm => /repo
